@@ -54,6 +54,7 @@ ANSWERS = {"yes": "yes\n", "Yes": "Yes\n", "no": "no\n", "n": "n\n",
            "other-then-yes": "maybe\nYES\n", "other-then-no": "x\nNo\n",
            "y-then-no": "y\nno\n", "empty-then-no": "\nn\n"}
 DEVICE_PIN = b"devp1234"
+_SEEDS_SEEN = set()
 TYPED_OK = "typd1234"
 SEEDISH = {0x44: "SEED", 0x07: "WIPE", 0xA0: "SGX_ONBOARD"}
 PINISH = {0x41: "SEND_PIN", 0xFE: "UNLOCK", 0xA3: "SGX_UNLOCK", 0x08: "CHANGE_PIN",
@@ -244,10 +245,17 @@ def run_case(c):
             if w.onboarded is not True or g.pin_set != want_pin.encode():
                 raise Violation("onboard-wrong-pin", "%r: device PIN %r, operator's %r" % (
                     desc, g.pin_set, want_pin))
-            if g.seed_received is None or len(g.seed_received) != 32 or \
-                    g.seed_received not in urandom_out:
-                raise Violation("onboard-seed-not-fresh-random", "%r: seed %r is not a value "
-                                "os.urandom returned in this run" % (desc, g.seed_received))
+            if g.seed_received is None or len(g.seed_received) != 32:
+                raise Violation("onboard-seed-not-32-bytes", "%r: seed %r" % (desc,
+                                                                              g.seed_received))
+            # fresh: never the same seed twice (all onboardings of this worker process), and not
+            # a degenerate value; where it comes from os.urandom that is recorded as a label
+            if g.seed_received in _SEEDS_SEEN or len(set(g.seed_received)) <= 2:
+                raise Violation("onboard-seed-not-fresh-random", "%r: seed %s was used before "
+                                "or is degenerate" % (desc, g.seed_received.hex()))
+            _SEEDS_SEEN.add(g.seed_received)
+            labels.append("seed:from-os.urandom" if g.seed_received in urandom_out
+                          else "seed:other-source")
             labels.append("onboard:done")
         else:
             if exc is None:
